@@ -469,6 +469,10 @@ func runC12(c *core.Check) {
 				}
 			}
 		}
+		if !okGuard && callersExcludeReserved(c, mp) {
+			c.Pass("C12.reserved", "matchPattern:return-true", ex.Ret.Pos(), "every call that matches a field name is reached only after the unquoted-reserved-keyword test failed at the call site")
+			continue
+		}
 		c.Decide(okGuard, "C12.reserved", "matchPattern:return-true", ex.Ret.Pos(), "after the reserved-keyword test failed (or empty pattern)", "matchPattern can report a match without having excluded reserved keywords: a glob then applies to label/shape/style fields")
 	}
 	if nret == 0 {
@@ -1031,4 +1035,53 @@ func recvObj(fi *core.FuncInfo) *types.Var {
 	}
 	v, _ := fi.Pkg.TypesInfo.Defs[fi.Decl.Recv.List[0].Names[0]].(*types.Var)
 	return v
+}
+
+// callersExcludeReserved: every call of matchPattern whose subject is a field name (….Name.ScalarString()) is
+// guarded, on the false edge, by a condition built on the comma-ok result of a ReservedKeywords lookup.
+func callersExcludeReserved(c *core.Check, mp *core.FuncInfo) bool {
+	n := 0
+	all := true
+	for _, fi := range c.P.Funcs(mp.Pkg) {
+		if fi.Decl.Body == nil {
+			continue
+		}
+		info := fi.Pkg.TypesInfo
+		var fl *core.Flow
+		for _, call := range core.Calls(fi.Decl.Body, true) {
+			if core.CalleeOf(info, call) != mp.Obj || len(call.Args) < 1 || !strings.Contains(exprStr(call.Args[0]), ".Name.") {
+				continue
+			}
+			n++
+			if fl == nil {
+				fl = core.NewFlow(fi.Pkg, fi.Decl.Body)
+			}
+			reservedFlags := map[types.Object]bool{}
+			ast.Inspect(fi.Decl.Body, func(nd ast.Node) bool {
+				as, ok := nd.(*ast.AssignStmt)
+				if ok && len(as.Lhs) == 2 && len(as.Rhs) == 1 {
+					if ix, ok := ast.Unparen(as.Rhs[0]).(*ast.IndexExpr); ok && strings.HasSuffix(exprStr(ix.X), "ReservedKeywords") {
+						reservedFlags[core.ObjOf(info, as.Lhs[1])] = true
+					}
+				}
+				return true
+			})
+			ok := false
+			for _, g := range fl.GuardsOfNode(call) {
+				if g.True {
+					continue
+				}
+				if core.Contains(g.Cond, func(y ast.Node) bool {
+					id, isID := y.(*ast.Ident)
+					return isID && reservedFlags[info.Uses[id]]
+				}) {
+					ok = true
+				}
+			}
+			if !ok {
+				all = false
+			}
+		}
+	}
+	return n > 0 && all
 }
